@@ -155,11 +155,17 @@ StepsFor(cs, k, tg, j, vprop, keep) ==
 \* one script per (seed offset, target): every command once, in table order and in reverse (results must not depend on what preceded)
 \* every command twice in a row through one command value the caller keeps, with different response contents
 Dup(q) == [i \in 1..(2 * Len(q)) |-> q[(i + 1) \div 2]]
+\* a request the library refuses to encode (22.18: privilege level 1h cannot be set): an error, nothing transmitted -
+\* and, inside a session, no sequence number used up (the datagrams that follow must continue the count: C09)
+Refused(tg) == [k |-> "call", api |-> "Cmd", cmd |-> "SetSessionPrivilegeLevel", label |-> "refused", target |-> tg, keep |-> FALSE,
+                args |-> [Req |-> [PrivilegeLevel |-> 1]],
+                exp |-> [prop |-> "C06", outcome |-> "errclass", errclass |-> "other", reqs |-> <<>>]]
 Script(id, k, tg, rev) ==
+  LET main == StepsFor(IF rev THEN Rev(Cmds(k)) ELSE Cmds(k), k, tg, 1, IF rev THEN "C17" ELSE "C07", FALSE) IN
   [id |-> id, prefix |-> IF tg = "sess" THEN "hs" ELSE "",
    info |-> [family |-> "api", insess |-> tg = "sess", integLen |-> S.integLen, bmcSid |-> S.bmcSid],
    \* the same commands in reverse order: a result that differs only there depends on what preceded it (C17)
-   steps |-> StepsFor(IF rev THEN Rev(Cmds(k)) ELSE Cmds(k), k, tg, 1, IF rev THEN "C17" ELSE "C07", FALSE)]
+   steps |-> IF tg = "sess" THEN << Refused(tg) >> \o main \o << Refused(tg) >> \o GetPriv(tg, (Len(main) \div 2) + 1, 3) ELSE << Refused(tg) >> \o main]
 Twice(id, k, tg, vprop) ==
   [id |-> id, prefix |-> IF tg = "sess" THEN "hs" ELSE "",
    info |-> [family |-> "api-twice", insess |-> tg = "sess", integLen |-> S.integLen, bmcSid |-> S.bmcSid],
